@@ -150,4 +150,38 @@ theorem swu_G1_sgn0 (t : F1) :
   rw [← optimizedSwuG1_y] at h
   exact ⟨by rw [← Fq.toZMod_div, ← sgn0_eq_spec, ← sgn0_eq_spec, h], h⟩
 
+/-- **C10 (G1): equality with the straight-line RFC procedure.**  For every correct square-root
+    function `sqrt` on `Fp` (one that returns *a* root of each square), the affine point computed by
+    `optimized_swu_G1(t)` equals the output of RFC 9380 §6.6.2 `map_to_curve_simple_swu(t)`
+    (`Spec.mapToCurveSimpleSwu`, steps 1–10 verbatim) — whichever root `sqrt` picks, step 9 fixes the
+    sign. -/
+theorem swu_G1_eq_rfc_function (sqrt : ZMod blsP → ZMod blsP)
+    (hsqrt : ∀ a, IsSquare a → sqrt a ^ 2 = a) (t : F1) :
+    (toZMod (optimizedSwuG1 t).1 / toZMod (optimizedSwuG1 t).2.2,
+      toZMod (optimizedSwuG1 t).2.1 / toZMod (optimizedSwuG1 t).2.2)
+      = Spec.mapToCurveSimpleSwu Spec.sgn0Fp sqrt A' B' Z' (toZMod t) := by
+  have hsgn : ∀ y : ZMod blsP, y ≠ 0 → Spec.sgn0Fp (-y) ≠ Spec.sgn0Fp y := by
+    intro y hy
+    have h := sgn0_neg_ne (Fq.ofZMod y) (by
+      intro h0; apply hy; rw [← Fq.toZMod_ofZMod y, h0, Fq.toZMod_zero])
+    rwa [sgn0_eq_spec, sgn0_eq_spec, Fq.toZMod_neg, Fq.toZMod_ofZMod] at h
+  have hsgn01 : ∀ y : ZMod blsP, Spec.sgn0Fp y < 2 := fun y => Nat.mod_lt _ (by decide)
+  have hcode := swu_G1_is_sswu t
+  have hx2 : ¬ IsSquare (sswuG A' B' (sswuX1 A' B' Z' (toZMod t))) →
+      IsSquare (sswuG A' B' (sswuX2 A' B' Z' (toZMod t))) := by
+    intro hns
+    rcases hcode.1 with ⟨h1, _, _⟩ | ⟨_, h2, h3⟩
+    · exact absurd h1 hns
+    · rw [← h2, ← h3, sq]; exact IsSquare.mul_self _
+  have hspec := mapToCurveSimpleSwu_isSswu Spec.sgn0Fp sqrt A' B' Z' (toZMod t) hsqrt hsgn hsgn01 hx2
+  have := SwuSem.IsSswu.unique Spec.sgn0Fp A' B' Z' (toZMod t) _ _ _ _ hsgn hcode hspec
+  exact Prod.ext this.1 this.2
+
+/-- a correct square-root function on `Fp` exists (non-vacuity of the hypothesis above) -/
+example : ∃ sqrt : ZMod blsP → ZMod blsP, ∀ a, IsSquare a → sqrt a ^ 2 = a := by
+  classical
+  refine ⟨fun a => if h : IsSquare a then h.choose else 0, fun a h => ?_⟩
+  simp only [h, dif_pos]
+  rw [sq]; exact h.choose_spec.symm
+
 end PyEcc.C10
